@@ -628,7 +628,68 @@ def r10_abandoned(ctx):
             ctx.require(ok, 'R10.9', inst, w, why, construct=f'{cls.qname}::{meth}::abandoned-iteration')
             for q in ai.inlined:
                 ctx.functions.add(q)
-    ctx.floor('R10.9', n, 10)
+    # the module-level generators over several ports, with and without the port in front of each message
+    src2 = ("def probe2(ports, fn, yp):\n"
+            "    first = None\n"
+            "    for m in fn(ports, yield_ports=yp, block=False) if fn is multi_receive else fn(ports, yield_ports=yp):\n"
+            "        first = m\n"
+            "        break\n"
+            "    return first, ports[0].poll(), ports[0].poll(), ports[1].poll(), ports[1].poll()\n")
+    tree2 = ast.parse(src2)
+    add_parents(tree2)
+    probe2 = FI('probe2', ctx.p.module(P), tree2.body[0])
+    for gname in ('multi_receive', 'multi_iter_pending'):
+        gfn = ctx.p.func(P, gname)
+        if gfn is None:
+            raise AnalysisError(f'{gname} not found in {P}')
+        ctx.fn(gfn)
+        for yp in (False, True):
+            ai = pm.make_interp(ctx)
+            pm.device_double(ai, ctx)
+            holder = {}
+
+            def thunk2():
+                a = pm.new_port(ai, ctx, 'BaseIOPort', [], {})
+                b = pm.new_port(ai, ctx, 'BaseIOPort', [], {})
+                ms = [pm.note(ctx, 1), pm.note(ctx, 2), pm.note(ctx, 3)]
+                a.attrs['_messages'].items.extend(ms[:2])
+                b.attrs['_messages'].items.append(ms[2])
+                holder.update(ms=ms, a=a)
+                ai.sleeps = 0
+                from ..fold import FuncRef
+                return ai.call_function(probe2, [AList([a, b], 'list'), FuncRef(gfn), yp], {})
+            outs = ai.explore(thunk2)
+            n += 1
+            inst = f'for m in {gname}(ports, yield_ports={yp}): break; then poll() every port'
+            ok = len(outs) == 1 and outs[0].kind == 'return'
+            why = f'{outs}'
+            if ok:
+                v = outs[0].value
+                got = list(v.items) if isinstance(v, AList) else list(v)
+                ms = holder['ms']
+
+                def same2(x, y):
+                    return x is y or (isinstance(x, AObj) and isinstance(y, AObj) and x.attrs == y.attrs)
+                first = got[0]
+                port_of = None
+                if yp:
+                    fi = list(first.items) if isinstance(first, AList) else (list(first) if isinstance(first, (tuple, list)) else [None, None])
+                    port_of, first = (fi[0], fi[1]) if len(fi) == 2 else (None, None)
+                # (the ports are polled in shuffled order: either port may be the one the first message comes from)
+                from_a = [x for x in got[1:3] if x is not None]
+                from_b = [x for x in got[3:5] if x is not None]
+                if same2(first, ms[0]):
+                    ok = len(from_a) == 1 and same2(from_a[0], ms[1]) and len(from_b) == 1 and same2(from_b[0], ms[2]) and (not yp or port_of is holder['a'])
+                elif same2(first, ms[2]):
+                    ok = len(from_a) == 2 and same2(from_a[0], ms[0]) and same2(from_a[1], ms[1]) and not from_b and (not yp or port_of is not holder['a'])
+                else:
+                    ok = False
+                why = (f'ports hold 2 and 1 messages; the loop takes {got[0]!r} and stops; polling the ports afterwards gives {got[1:]!r} - the two '
+                       'messages not taken must still be there, once each')
+            ctx.require(ok, 'R10.9', inst, ctx.where(gfn), why, construct=f'{gfn.qname}::abandoned-iteration')
+            for q in ai.inlined:
+                ctx.functions.add(q)
+    ctx.floor('R10.9', n, 14)
 
 
 def r10_exec(ctx):
@@ -749,6 +810,51 @@ def r10_hook_order(ctx):
     ctx.floor('R10.14', n, 2)
 
 
+def r10_multiport_borrows(ctx):
+    """A MultiPort is a view on ports that belong to whoever opened them: closing it - explicitly, by leaving a with block, or
+    by the finaliser when a short-lived wrapper is dropped - leaves the wrapped ports open, their queues as they were, and a
+    send on them still goes through.  (Otherwise every helper that wraps the application's ports for one call closes them
+    behind the threads still using them: later sends raise, later messages are received zero times.)"""
+    from ..absint import AObj
+    mp = ctx.p.cls(P, 'MultiPort')
+    w = f'{mp.module.relpath}:{mp.node.lineno} MultiPort'
+    n = 0
+    for how in ('close', '__exit__', '__del__'):
+        ai = pm.make_interp(ctx)
+        pm.device_double(ai, ctx)
+        holder = {}
+
+        def thunk():
+            a = pm.new_port(ai, ctx, 'EchoPort', [], {})
+            b = pm.new_port(ai, ctx, 'EchoPort', [], {})
+            m1 = pm.note(ctx, 1)
+            b.attrs['_messages'].items.append(m1)
+            multi = pm.new_port(ai, ctx, 'MultiPort', [[a, b]], {})
+            o, fn = ctx.p.lookup_method(mp, how)
+            if fn is None:
+                raise AnalysisError(f'MultiPort.{how} not found')
+            ctx.fn(fn)
+            ai.call_function(fn, [multi] + ([None, None, None] if how == '__exit__' else []), {})
+            holder.update(a=a, b=b, m1=m1)
+            o, snd = ctx.p.lookup_method(a.cls, 'send')
+            return ai.call_function(snd, [a, pm.note(ctx, 2)], {})
+        outs = ai.explore(thunk)
+        n += 1
+        ok = len(outs) == 1 and outs[0].kind == 'return'
+        detail = f'{outs}'
+        if ok:
+            a, b = holder['a'], holder['b']
+            ok = a.attrs.get('closed') is False and b.attrs.get('closed') is False and len(b.attrs['_messages'].items) == 1 \
+                and b.attrs['_messages'].items[0] is holder['m1'] and len(a.attrs['_messages'].items) == 1
+            detail = f'closed: {a.attrs.get("closed")}, {b.attrs.get("closed")}; queues {a.attrs["_messages"].items} {b.attrs["_messages"].items}'
+        ctx.require(ok, 'R10.16', f'MultiPort.{how}() then send on a wrapped port', w,
+                    f'after MultiPort.{how}() the ports it wraps are not as they were ({detail[:300]}): the wrapper closes or drains ports it does not own',
+                    construct=f'{mp.qname}::closes-wrapped-ports')
+        for qn in ai.inlined:
+            ctx.functions.add(qn)
+    ctx.floor('R10.16', n, 3)
+
+
 def r10_socket_iteration(ctx):
     """Received exactly once - also the messages that arrive together with the end of the stream: a socket port that closes
     itself inside a receive call still hands out every complete message it took in (shared with C18 R18.1)."""
@@ -763,5 +869,5 @@ def r10_live_socket(ctx):
     ctx.borrow(c18.r18_live, 'R10.15')
 
 
-RULES = [('R10.15', r10_live_socket), ('R10.14', r10_hook_order), ('R10.13', r10_socket_iteration), ('R10.12', r10_multi_ports), ('R10.11', r10_unbounded), ('R10.10', r10_shared_args), ('R10.8', r10_exec), ('R10.9', r10_abandoned), ('R10.1', r10_1), ('R10.2', r10_2), ('R10.3', r10_3), ('R10.4', r10_4), ('R10.5', r10_5), ('R10.6', r10_6), ('R10.7', r10_7)]
+RULES = [('R10.16', r10_multiport_borrows), ('R10.15', r10_live_socket), ('R10.14', r10_hook_order), ('R10.13', r10_socket_iteration), ('R10.12', r10_multi_ports), ('R10.11', r10_unbounded), ('R10.10', r10_shared_args), ('R10.8', r10_exec), ('R10.9', r10_abandoned), ('R10.1', r10_1), ('R10.2', r10_2), ('R10.3', r10_3), ('R10.4', r10_4), ('R10.5', r10_5), ('R10.6', r10_6), ('R10.7', r10_7)]
 THOROUGH_RULES = [('R10-backends', r10_backends)]
